@@ -567,6 +567,24 @@ def P25():
     )
 
 
+def P26():
+    """Exactly correlated states and a state whose variance is exactly zero but only by cancellation (d = k x - y with
+    y = k x): the computed variance is a few 1e-17 of either sign."""
+    x, y, d, u, dt = V("x"), V("y"), V("d"), V("u"), V("dt")
+    k = C(0.7)
+    return Program(
+        id="P26-zero-variance",
+        state=["x", "y", "d"],
+        control=["u"],
+        calibration=[],
+        update={"x": x + dt * u, "y": k * (x + dt * u), "d": k * x - y},
+        process_noise={"u": 1.0},
+        sensors={"position": {"r0": x}},
+        sensor_noise={"position": {"r0": 0.3}},
+        note="singular process Jacobian, zero variance by cancellation",
+    )
+
+
 def quick_programs():
     return [P1(), P3(), P8()]
 
@@ -577,7 +595,7 @@ def all_fixed():
 
 def catalogue():
     """Every fixed program, including the model-level-only ones (replay looks programs up by id here)."""
-    return all_fixed() + [P11(), P18(), P21(), P22(), P23(), P24(), P25()]
+    return all_fixed() + [P11(), P18(), P21(), P22(), P23(), P24(), P25(), P26()]
 
 
 def with_noise(p, process=None, sensor=None, pid=None):
